@@ -98,7 +98,8 @@ fn oracle(c: u32, host: u8) -> Vec<((u8, u8), u8)> {
 }
 
 /// history h: 0 ascending inserts, 1 descending inserts, 2 all keys then remove_keep_tree of the absent ones (leftover
-/// nodes), 3 all keys then remove of the absent ones and re-insert of the present ones (recycled slots);
+/// nodes), 3 all keys then remove of the absent ones and re-insert of the present ones (recycled slots), 4 all keys then
+/// removal of the absent ones through a mutable view (TrieViewMut::remove);
 /// `host`: bits or-ed into the host part of every stored representation
 fn build(c: u32, h: u32, host: u8) -> PrefixMap<P, u8> {
     let mut m: PrefixMap<P, u8> = PrefixMap::new();
@@ -122,6 +123,18 @@ fn build(c: u32, h: u32, host: u8) -> PrefixMap<P, u8> {
                 if digit(c, k) == 0 { m.remove_keep_tree(key); }
             }
         }
+        4 => {
+            // values removed through a mutable view (this leaves the cached counter stale - known finding under C04 -
+            // which `==` must not depend on: it compares entry sequences)
+            for (k, key) in KEYS.iter().enumerate() {
+                m.insert(rep(*key), if digit(c, k) > 0 { (digit(c, k) - 1) as u8 } else { 7 });
+            }
+            for (k, key) in KEYS.iter().enumerate() {
+                if digit(c, k) == 0 {
+                    if let Some(mut v) = m.view_mut_at(*key) { v.remove(); }
+                }
+            }
+        }
         _ => {
             for key in KEYS.iter() { m.insert(*key, 9); }
             for key in KEYS.iter().rev() { m.remove(key); }
@@ -142,7 +155,7 @@ fn c19_bounded() -> Result<(), String> {
     let canon: Vec<PrefixMap<P, u8>> = (0..n).map(|c| build(c, 0, 0)).collect();
     let canon_o: Vec<Vec<((u8, u8), u8)>> = (0..n).map(|c| oracle(c, 0)).collect();
     for c in 0..n {
-        for h in 0..4u32 {
+        for h in 0..5u32 {
             for host in [0u8, 0x15u8] {
                 if host != 0 && h != 0 && h != 2 { continue; }
                 let a = build(c, h, host);
@@ -167,7 +180,7 @@ fn c19_bounded() -> Result<(), String> {
                 }
                 // reflexive, and equal to the same contents built by every other history
                 if !(a == a) { return Err(format!("code {c} history {h}: a == a is false")); }
-                for h2 in 0..4u32 {
+                for h2 in 0..5u32 {
                     let b = build(c, h2, host);
                     evals += 1;
                     if !(a == b) { return Err(format!("code {c} host {host:#x}: history {h} != history {h2} although both store {ao:?}")); }
@@ -175,11 +188,11 @@ fn c19_bounded() -> Result<(), String> {
                 // clone: equal, and independent in both directions
                 let mut cl = a.clone();
                 evals += 1;
-                if !(cl == a) || cl.len() != a.len() { return Err(format!("code {c} history {h}: clone() is not equal to the original")); }
+                if !(cl == a) || (h != 4 && cl.len() != a.len()) { return Err(format!("code {c} history {h}: clone() is not equal to the original")); }
                 cl.insert((0x20, 3), 5);
                 if let Some(e) = ao.first() { cl.insert(e.0, 6); }
                 let after: Vec<((u8, u8), u8)> = a.iter().map(|(p, v)| (*p, *v)).collect();
-                if after != ao || a.len() != ao.len() { return Err(format!("code {c} history {h}: writing to the clone changed the original: {after:?}")); }
+                if after != ao || (h != 4 && a.len() != ao.len()) { return Err(format!("code {c} history {h}: writing to the clone changed the original: {after:?}")); }
                 if cl == a { return Err(format!("code {c} history {h}: clone with an extra entry still equals the original")); }
                 // collect round trip (map and set)
                 let rt: PrefixMap<P, u8> = a.iter().map(|(p, v)| (*p, *v)).collect();
@@ -192,15 +205,24 @@ fn c19_bounded() -> Result<(), String> {
             }
         }
     }
-    // sets: every pair of key subsets
-    let sets: Vec<PrefixSet<P>> = (0..128u32).map(|b| KEYS.iter().enumerate().filter(|(k, _)| b >> k & 1 == 1).map(|(_, p)| *p).collect()).collect();
+    // sets: every pair of key subsets, each stored without and with host bits (0x15 differs in the host part of every key)
+    let mk = |b: u32, host: u8| -> PrefixSet<P> { KEYS.iter().enumerate().filter(|(k, _)| b >> k & 1 == 1).map(|(_, p)| (p.0 | (host & (0xffu8 >> p.1)), p.1)).collect() };
+    let sets: Vec<[PrefixSet<P>; 2]> = (0..128u32).map(|b| [mk(b, 0), mk(b, 0x15)]).collect();
     for x in 0..128usize {
         for y in 0..128usize {
-            evals += 1;
-            if (sets[x] == sets[y]) != (x == y) { return Err(format!("sets with key masks {x:#b} and {y:#b}: == is {}", sets[x] == sets[y])); }
+            for hx in 0..2usize {
+                for hy in 0..2usize {
+                    evals += 1;
+                    let expect = x == y && (hx == hy || x == 0);
+                    if expect { equal_expected += 1 } else { unequal_expected += 1 }
+                    if (sets[x][hx] == sets[y][hy]) != expect {
+                        return Err(format!("sets with key masks {x:#b} (host bits {}) and {y:#b} (host bits {}): == is {}, expected {expect}", hx == 1, hy == 1, sets[x][hx] == sets[y][hy]));
+                    }
+                }
+            }
         }
     }
-    println!("STATS c19_bounded evaluations={evals} pairs_expected_equal={equal_expected} pairs_expected_unequal={unequal_expected} states={} histories=4 exhaustive=true", n);
+    println!("STATS c19_bounded evaluations={evals} pairs_expected_equal={equal_expected} pairs_expected_unequal={unequal_expected} states={} histories=5 exhaustive=true", n);
     Ok(())
 }
 
